@@ -24,11 +24,11 @@ KINDS = ('list', 'struct', 'bits')
 
 # the layout / traversal specification of the property, per generator
 GEN_SPEC = {
-    '_mk_imatmul_fn':       dict(list_dir=None,   struct='delegate'),
-    '_mk_ff_fn':            dict(list_dir=None,   struct='delegate'),
+    '_mk_imatmul_fn':       dict(list_dir=None,   struct='delegate', seq=True),
+    '_mk_ff_fn':            dict(list_dir=None,   struct='delegate', seq=True),
     '_mk_clone_fn':         dict(list_dir='asc',  struct='delegate'),
     '_mk_deepcopy_fn':      dict(list_dir='asc',  struct='delegate'),
-    '_mk_nbits_to_bits_fn': dict(list_dir='desc', struct='recurse'),   # element 0 least significant
+    '_mk_nbits_to_bits_fn': dict(list_dir='desc', struct='recurse', seq=True),   # element 0 least significant
     '_mk_from_bits_fns':    dict(list_dir=None,   struct='recurse'),
 }
 
@@ -95,6 +95,7 @@ class Helper:
             self.cases[k] = (main, ev)
             self.steps += ev.steps
         leaf = self.comps('bits')
+        self.ncomp = len(leaf)
         self.is_tuple = isinstance(self.cases['bits'][0], Tup)
         self.str_idx = [i for i, c in enumerate(leaf) if stringish(c)]
         self.cnt_idx = [i for i, c in enumerate(leaf) if not stringish(c)]
@@ -115,7 +116,11 @@ class Helper:
 
     def comps(self, kind):
         v = self.cases[kind][0]
-        return list(v.items) if isinstance(v, Tup) else [v]
+        out = list(v.items) if isinstance(v, Tup) else [v]
+        n = getattr(self, 'ncomp', 0)
+        while len(out) < n:                       # a return path with fewer results than the leaf case
+            out.append(Sym('<missing result component>'))
+        return out
 
     def pos(self, pname):
         return self.params.index(pname)
@@ -151,6 +156,15 @@ class Gen:
             v, ev = U.eval_generator(m, self.fdef, k)
             self.tops[k] = (v, ev)
             self.steps += ev.steps
+        self.extra = []          # additional return paths of the generator: (label, conditions, value)
+        for k in kinds:
+            v, ev = self.tops[k]
+            arms = U.alternatives(v)
+            main = arms[-1][1]
+            for c, a in arms[:-1]:
+                if a != main:
+                    self.extra.append((k, c, a))
+            self.tops[k] = (main, ev)
         self.top, self.ev = self.tops[kinds[0]]
         self.helpers = {}
         for k, (v, ev) in self.tops.items():
@@ -206,6 +220,20 @@ def analysis(repo):
     if a is None:
         a = repo._c06_analysis = Analysis(repo)
     return a
+
+
+def extra_generator_paths(r, m, g):
+    """a generator with an additional `return` under a condition the analysis cannot decide: that path must
+    produce generated function(s) too; the rules analyse the fall-through path"""
+    for k, conds, arm in g.extra:
+        items = arm.items if isinstance(arm, Tup) else (arm,)
+        cons = f"return path [{U.show_conds(conds)}]"
+        if not any(isinstance(x, Fn) for x in items):
+            r.bad(m, g.name, cons, f"under `{U.show_conds(conds)}` the generator returns {show(arm)[:100]} instead of the "
+                  f"generated function(s): the method is missing / not generated from the fields for such types", g.fdef.lineno)
+        else:
+            raise AnalysisError(f"{g.name}: a second, different generated function is returned under "
+                                f"`{U.show_conds(conds)}`; the rules cannot relate it to the specification")
 
 
 def the_helper(g):
@@ -347,6 +375,7 @@ def rule_traversal(repo):
     seen_helpers = set()
     for gname, spec in GEN_SPEC.items():
         g = A.gen(gname)
+        extra_generator_paths(r, m, g)
         h = the_helper(g)
         fields = g.fields_sym()
         sites = U.rec_sites(g.top)
@@ -420,6 +449,26 @@ def _proj_problems(h, kind):
     return pr
 
 
+def _seq_problems(h, kind, rec, L, spec):
+    """for helpers that return lists of emitted strings: the list/struct case must return exactly the
+    concatenation, in loop order, of the element results (nothing dropped, repeated, sliced or added)"""
+    pr = []
+    if not spec.get('seq'):
+        return pr
+    comps = h.comps(kind)
+    for i in h.str_idx:
+        c = comps[i]
+        want = Proj(rec, i) if h.is_tuple else rec
+        ok = isinstance(c, SeqV)
+        if ok:
+            ents = list(U.flatten(c.segs))
+            ok = len(ents) == 1 and ents[0][0] == Splice(want) and len(ents[0][1]) == 1 and ents[0][1][0].loop == L \
+                and not ents[0][2]
+        if not ok:
+            pr.append(f"the returned strings are {show(c)[:160]}: not exactly the results of all elements in loop order")
+    return pr
+
+
 def _check_list_case(r, m, h, spec):
     v, ev = h.cases['list']
     sites = U.rec_sites(v)
@@ -454,6 +503,7 @@ def _check_list_case(r, m, h, spec):
             pr.append(f"access path of an element is {show(rec.args[h.pos(h.prefix)])}, must be <prefix>[<index of this "
                       f"element>] -- every element would read/write the same object")
     pr += _proj_problems(h, 'list')
+    pr += _seq_problems(h, 'list', rec, L, spec)
     cons = f"list case: recursion {show(rec)}"
     if pr:
         r.bad(m, fn, cons, '; '.join(pr), h.fdef.lineno)
@@ -497,6 +547,7 @@ def _check_struct_case(r, m, h, spec):
         if sh != ('attr', Sym(h.prefix), field_key_value(L)):
             pr.append(f"access path of a nested field is {show(rec.args[h.pos(h.prefix)])}, must be <prefix>.<field name>")
     pr += _proj_problems(h, 'struct')
+    pr += _seq_problems(h, 'struct', rec, L, spec)
     cons = f"struct case: recursion {show(rec)}"
     if pr:
         r.bad(m, fn, cons, '; '.join(pr), h.fdef.lineno)
@@ -1073,28 +1124,30 @@ def rule_width(repo):
         if rec != vrec or totals[0].loop != L:
             pr.append("the width is accumulated over a different traversal than the one that emits the operands")
     (r.bad(m, g.name, cons, '; '.join(pr), g.fdef.lineno) if pr else r.ok(m, g.name, cons))
-    for kind in ('list', 'struct'):
-        comps = h.comps(kind)
-        cons = f"to_bits {kind} case: position threaded through every element"
-        pr, rec = threaded_problems(comps[ci], h, ci, Sym(h.counter), 'bit position')
-        if rec is not None:
-            ss = U.rec_sites(comps[si])
-            if not ss or any(s.rec != rec or s.loops != (comps[ci].loop,) for s in ss):
-                pr.append("operands and positions come from different recursive calls / loops")
-        (r.bad(m, h.where, cons, '; '.join(pr), h.fdef.lineno) if pr else r.ok(m, h.where, cons))
-    leaf = h.comps('bits')
-    cons = f"to_bits Bits leaf: position {show(leaf[ci])}"
-    want = U.lin(Sym(h.counter)).add(U.lin(Attr(h.T, 'nbits')))
-    if U.lin(leaf[ci]) != want:
-        r.bad(m, h.where, cons, f"a leaf advances the position to {show(leaf[ci])}, must be {show(want)}: the reported nbits "
-              f"differs from the sum of the leaf widths", h.fdef.lineno)
-    else:
-        r.ok(m, h.where, cons)
-    cons = "to_bits Bits leaf: exactly one concat operand"
-    if one_item(leaf[si]) is None:
-        r.bad(m, h.where, cons, f"a leaf contributes {show(leaf[si])}", h.fdef.lineno)
-    else:
-        r.ok(m, h.where, cons, nontrivial=False)
+    h0 = h
+    for h in h0.variants():
+        for kind in ('list', 'struct'):
+            comps = h.comps(kind)
+            cons = f"to_bits {kind} case: position threaded through every element"
+            pr, rec = threaded_problems(comps[ci], h, ci, Sym(h.counter), 'bit position')
+            if rec is not None:
+                ss = U.rec_sites(comps[si])
+                if not ss or any(s.rec != rec or s.loops != (comps[ci].loop,) for s in ss):
+                    pr.append("operands and positions come from different recursive calls / loops")
+            (r.bad(m, h.where, cons, '; '.join(pr), h.fdef.lineno) if pr else r.ok(m, h.where, cons))
+        leaf = h.comps('bits')
+        cons = f"to_bits Bits leaf: position {show(leaf[ci])}"
+        want = U.lin(Sym(h.counter)).add(U.lin(Attr(h.T, 'nbits')))
+        if U.lin(leaf[ci]) != want:
+            r.bad(m, h.where, cons, f"a leaf advances the position to {show(leaf[ci])}, must be {show(want)}: the reported nbits "
+                  f"differs from the sum of the leaf widths", h.fdef.lineno)
+        else:
+            r.ok(m, h.where, cons)
+        cons = "to_bits Bits leaf: exactly one concat operand"
+        if one_item(leaf[si]) is None:
+            r.bad(m, h.where, cons, f"a leaf contributes {show(leaf[si])}", h.fdef.lineno)
+        else:
+            r.ok(m, h.where, cons, nontrivial=False)
     # ---- from_bits
     g, h, ci, si = from_bits_parts(A)
     L, vrec = top_visit(g, h)
@@ -1128,54 +1181,56 @@ def rule_width(repo):
         r.bad(m, g.name, cons, "the generator does not assert that unpacking consumed exactly the total width: a "
               "to_bits/from_bits width disagreement would go unnoticed and fields would be cut from shifted positions",
               g.fdef.lineno)
-    for kind in ('list', 'struct'):
-        comps = h.comps(kind)
-        cons = f"from_bits {kind} case: position threaded through every element"
-        pr, rec = threaded_problems(comps[ci], h, ci, Sym(h.counter), 'bit position')
-        if rec is not None:
-            ss = U.rec_sites(comps[si])
-            if not ss or any(s.rec != rec or s.loops != (comps[ci].loop,) for s in ss):
-                pr.append("arguments and positions come from different recursive calls / loops")
-        (r.bad(m, h.where, cons, '; '.join(pr), h.fdef.lineno) if pr else r.ok(m, h.where, cons))
-        cons = f"from_bits {kind} case: exactly one constructor argument"
-        if one_item(comps[si]) is None:
-            r.bad(m, h.where, cons, f"the {kind} case returns {show(comps[si])}: the caller (reversal of list elements, "
-                  f"positional constructor arguments) relies on one string per element", h.fdef.lineno)
-        else:
-            r.ok(m, h.where, cons, nontrivial=False)
-    leaf = h.comps('bits')
-    want = U.lin(Sym(h.counter)).add(U.lin(Attr(h.T, 'nbits')), -1)
-    cons = f"from_bits Bits leaf: returns position {show(leaf[ci])}"
-    if U.lin(leaf[ci]) != want:
-        r.bad(m, h.where, cons, f"a leaf moves the position to {show(leaf[ci])}, must be {show(want)}", h.fdef.lineno)
-    else:
-        r.ok(m, h.where, cons)
-    t = one_item(leaf[si])
-    cons = "from_bits Bits leaf: slice bounds"
-    if t is None:
-        r.bad(m, h.where, cons, f"a leaf contributes {show(leaf[si])}, not one slice", h.fdef.lineno)
-    else:
-        hl = U.Holes()
-        e, src, err = U.parse_text(t, hl, 'eval')
-        if err or not (isinstance(e, ast.Subscript) and isinstance(e.slice, ast.Slice)):
-            r.bad(m, h.where, cons, f"the leaf emits `{src}`, not a slice", h.fdef.lineno)
-        else:
-            def bound(x):
-                if x is None:
-                    return None
-                if isinstance(x, ast.Name) and hl.value(x.id) is not None:
-                    return U.lin(hl.value(x.id))
-                if isinstance(x, ast.Constant) and isinstance(x.value, int):
-                    return Lin(x.value)
-                return 'expr:' + norm(x)
-            lo, hi = bound(e.slice.lower), bound(e.slice.upper)
-            hi_want = U.lin(Sym(h.counter))
-            if lo != want or hi != hi_want or e.slice.step is not None:
-                r.bad(m, h.where, cons + f": {show(t)}", f"the leaf is cut from [{show(lo) if isinstance(lo, Lin) else lo}:"
-                      f"{show(hi) if isinstance(hi, Lin) else hi}], must be [{show(want)}:{show(hi_want)}] (the nbits bits "
-                      f"below the running position)", h.fdef.lineno)
+    h0 = h
+    for h in h0.variants():
+        for kind in ('list', 'struct'):
+            comps = h.comps(kind)
+            cons = f"from_bits {kind} case: position threaded through every element"
+            pr, rec = threaded_problems(comps[ci], h, ci, Sym(h.counter), 'bit position')
+            if rec is not None:
+                ss = U.rec_sites(comps[si])
+                if not ss or any(s.rec != rec or s.loops != (comps[ci].loop,) for s in ss):
+                    pr.append("arguments and positions come from different recursive calls / loops")
+            (r.bad(m, h.where, cons, '; '.join(pr), h.fdef.lineno) if pr else r.ok(m, h.where, cons))
+            cons = f"from_bits {kind} case: exactly one constructor argument"
+            if one_item(comps[si]) is None:
+                r.bad(m, h.where, cons, f"the {kind} case returns {show(comps[si])}: the caller (reversal of list elements, "
+                      f"positional constructor arguments) relies on one string per element", h.fdef.lineno)
             else:
-                r.ok(m, h.where, cons + f": {show(t)}")
+                r.ok(m, h.where, cons, nontrivial=False)
+        leaf = h.comps('bits')
+        want = U.lin(Sym(h.counter)).add(U.lin(Attr(h.T, 'nbits')), -1)
+        cons = f"from_bits Bits leaf: returns position {show(leaf[ci])}"
+        if U.lin(leaf[ci]) != want:
+            r.bad(m, h.where, cons, f"a leaf moves the position to {show(leaf[ci])}, must be {show(want)}", h.fdef.lineno)
+        else:
+            r.ok(m, h.where, cons)
+        t = one_item(leaf[si])
+        cons = "from_bits Bits leaf: slice bounds"
+        if t is None:
+            r.bad(m, h.where, cons, f"a leaf contributes {show(leaf[si])}, not one slice", h.fdef.lineno)
+        else:
+            hl = U.Holes()
+            e, src, err = U.parse_text(t, hl, 'eval')
+            if err or not (isinstance(e, ast.Subscript) and isinstance(e.slice, ast.Slice)):
+                r.bad(m, h.where, cons, f"the leaf emits `{src}`, not a slice", h.fdef.lineno)
+            else:
+                def bound(x):
+                    if x is None:
+                        return None
+                    if isinstance(x, ast.Name) and hl.value(x.id) is not None:
+                        return U.lin(hl.value(x.id))
+                    if isinstance(x, ast.Constant) and isinstance(x.value, int):
+                        return Lin(x.value)
+                    return 'expr:' + norm(x)
+                lo, hi = bound(e.slice.lower), bound(e.slice.upper)
+                hi_want = U.lin(Sym(h.counter))
+                if lo != want or hi != hi_want or e.slice.step is not None:
+                    r.bad(m, h.where, cons + f": {show(t)}", f"the leaf is cut from [{show(lo) if isinstance(lo, Lin) else lo}:"
+                          f"{show(hi) if isinstance(hi, Lin) else hi}], must be [{show(want)}:{show(hi_want)}] (the nbits bits "
+                          f"below the running position)", h.fdef.lineno)
+                else:
+                    r.ok(m, h.where, cons + f": {show(t)}")
     r.evaluations = A.steps()
     r.require_floor(12)
     return r
@@ -1431,85 +1486,92 @@ def rule_eqhash(repo):
     spaces = {}
     for gname, fname in (('_mk_eq_fn', '__eq__'), ('_mk_hash_fn', '__hash__')):
         g = A.gen(gname)
-        fns = g.fns()
-        if len(fns) != 1:
+        if not isinstance(g.top, Fn):
             raise AnalysisError(f"{gname} does not return one generated function")
-        fn = fns[0][1]
-        fields = g.fields_sym()
-        hl = U.Holes()
-        fd, src, err = U.parse_fn(fn, hl)
-        if fd is None:
-            r.bad(m, gname, f"generated {fname}", f"generated source does not parse: {err}", g.fdef.lineno)
-            continue
-        names = [a.arg for a in fd.args.args]
-        rets = [n for n in ast.walk(fd) if isinstance(n, ast.Return)]
-        if fname == '__eq__':
-            cons = "generated __eq__: class identity and field tuples"
-            if len(names) != 2 or len(rets) != 1 or len(fd.body) != 1:
-                r.bad(m, gname, cons, f"`{src}` is not a single `return <class identity> and <tuple> == <tuple>`", g.fdef.lineno)
-                continue
-            e = rets[0].value
-            conj = e.values if isinstance(e, ast.BoolOp) and isinstance(e.op, ast.And) else [e]
-            ident = [c for c in conj if isinstance(c, ast.Compare) and len(c.ops) == 1 and
-                     isinstance(c.ops[0], (ast.Is, ast.Eq)) and
-                     {class_of(c.left), class_of(c.comparators[0])} == set(names)]
-            tups = [c for c in conj if isinstance(c, ast.Compare) and len(c.ops) == 1 and isinstance(c.ops[0], ast.Eq)
-                    and tuple_holes(c.left, hl) is not None and tuple_holes(c.comparators[0], hl) is not None]
-            pr = []
-            if not ident:
-                pr.append("no conjunct requires `other.__class__ is self.__class__`: values of two different struct types "
-                          "with equal field tuples compare equal")
-            if len(ident) + len(tups) != len(conj):
-                pr.append(f"unexpected conjunct in `{norm(e)}`")
-            if len(tups) != 1:
-                pr.append("no comparison of the two field tuples")
-            if pr:
-                r.bad(m, gname, cons, '; '.join(pr), g.fdef.lineno)
+        arms = [('', g.top)]
+        for k, conds, arm in g.extra:      # every return path of the generator must produce a correct function
+            if isinstance(arm, Fn):
+                arms.append((f" [path {U.show_conds(conds)}]", arm))
             else:
-                r.ok(m, gname, cons)
-            if len(tups) != 1:
+                r.bad(m, gname, f"return path [{U.show_conds(conds)}]", f"under `{U.show_conds(conds)}` the generator returns "
+                      f"{show(arm)[:80]} instead of a generated {fname}", g.fdef.lineno)
+        for label, fn in arms:
+            where = gname + label
+            fields = g.fields_sym()
+            hl = U.Holes()
+            fd, src, err = U.parse_fn(fn, hl)
+            if fd is None:
+                r.bad(m, where, f"generated {fname}", f"generated source does not parse: {err}", g.fdef.lineno)
                 continue
-            c = tups[0]
-            sides = [field_tuple(tuple_holes(c.left, hl)), field_tuple(tuple_holes(c.comparators[0], hl))]
-            cons = "generated __eq__: the two tuples list every field of self and of other, pairwise aligned"
-            pr = [s for s in sides if isinstance(s, str)]
-            if not pr:
-                (ra, La, reva), (rb, Lb, revb) = sides
-                if {ra, rb} != set(names):
-                    pr.append(f"the tuples are built from {ra} and {rb}, must be {names[0]} and {names[1]} (a value would be "
-                              f"compared with itself)")
-                for L in (La, Lb):
+            names = [a.arg for a in fd.args.args]
+            rets = [n for n in ast.walk(fd) if isinstance(n, ast.Return)]
+            if fname == '__eq__':
+                cons = "generated __eq__: class identity and field tuples"
+                if len(names) != 2 or len(rets) != 1 or len(fd.body) != 1:
+                    r.bad(m, where, cons, f"`{src}` is not a single `return <class identity> and <tuple> == <tuple>`", g.fdef.lineno)
+                    continue
+                e = rets[0].value
+                conj = e.values if isinstance(e, ast.BoolOp) and isinstance(e.op, ast.And) else [e]
+                ident = [c for c in conj if isinstance(c, ast.Compare) and len(c.ops) == 1 and
+                         isinstance(c.ops[0], (ast.Is, ast.Eq)) and
+                         {class_of(c.left), class_of(c.comparators[0])} == set(names)]
+                tups = [c for c in conj if isinstance(c, ast.Compare) and len(c.ops) == 1 and isinstance(c.ops[0], ast.Eq)
+                        and tuple_holes(c.left, hl) is not None and tuple_holes(c.comparators[0], hl) is not None]
+                pr = []
+                if not ident:
+                    pr.append("no conjunct requires `other.__class__ is self.__class__`: values of two different struct types "
+                              "with equal field tuples compare equal")
+                if len(ident) + len(tups) != len(conj):
+                    pr.append(f"unexpected conjunct in `{norm(e)}`")
+                if len(tups) != 1:
+                    pr.append("no comparison of the two field tuples")
+                if pr:
+                    r.bad(m, where, cons, '; '.join(pr), g.fdef.lineno)
+                else:
+                    r.ok(m, where, cons)
+                if len(tups) != 1:
+                    continue
+                c = tups[0]
+                sides = [field_tuple(tuple_holes(c.left, hl)), field_tuple(tuple_holes(c.comparators[0], hl))]
+                cons = "generated __eq__: the two tuples list every field of self and of other, pairwise aligned"
+                pr = [s for s in sides if isinstance(s, str)]
+                if not pr:
+                    (ra, La, reva), (rb, Lb, revb) = sides
+                    if {ra, rb} != set(names):
+                        pr.append(f"the tuples are built from {ra} and {rb}, must be {names[0]} and {names[1]} (a value would be "
+                                  f"compared with itself)")
+                    for L in (La, Lb):
+                        pr += field_space_problems(g.ev, L, fields)
+                    if show(La.space) != show(Lb.space) or reva != revb:
+                        pr.append("the two tuples enumerate the fields differently: field i of self is compared with field j of other")
+                    spaces['eq'] = show(U.subst_values(La.space, {fields: Sym('F')})) if fields else None
+                if pr:
+                    r.bad(m, where, cons, '; '.join(pr), g.fdef.lineno)
+                else:
+                    r.ok(m, where, cons)
+            else:
+                cons = "generated __hash__: hash of the complete field tuple of self"
+                e = rets[0].value if len(rets) == 1 and len(fd.body) == 1 else None
+                ok = len(names) == 1 and isinstance(e, ast.Call) and norm(e.func) == 'hash' and len(e.args) == 1 and not e.keywords
+                hole = tuple_holes(e.args[0], hl) if ok else None
+                if hole is None:
+                    r.bad(m, where, cons, f"`{src}` is not `return hash((<field tuple>,))`", g.fdef.lineno)
+                    continue
+                side = field_tuple(hole)
+                pr = []
+                if isinstance(side, str):
+                    pr.append(side)
+                else:
+                    root, L, rev = side
+                    if root != names[0]:
+                        pr.append(f"hashes the fields of `{root}`, not of `{names[0]}`")
                     pr += field_space_problems(g.ev, L, fields)
-                if show(La.space) != show(Lb.space) or reva != revb:
-                    pr.append("the two tuples enumerate the fields differently: field i of self is compared with field j of other")
-                spaces['eq'] = show(U.subst_values(La.space, {fields: Sym('F')})) if fields else None
-            if pr:
-                r.bad(m, gname, cons, '; '.join(pr), g.fdef.lineno)
-            else:
-                r.ok(m, gname, cons)
-        else:
-            cons = "generated __hash__: hash of the complete field tuple of self"
-            e = rets[0].value if len(rets) == 1 and len(fd.body) == 1 else None
-            ok = len(names) == 1 and isinstance(e, ast.Call) and norm(e.func) == 'hash' and len(e.args) == 1 and not e.keywords
-            hole = tuple_holes(e.args[0], hl) if ok else None
-            if hole is None:
-                r.bad(m, gname, cons, f"`{src}` is not `return hash((<field tuple>,))`", g.fdef.lineno)
-                continue
-            side = field_tuple(hole)
-            pr = []
-            if isinstance(side, str):
-                pr.append(side)
-            else:
-                root, L, rev = side
-                if root != names[0]:
-                    pr.append(f"hashes the fields of `{root}`, not of `{names[0]}`")
-                pr += field_space_problems(g.ev, L, fields)
-                spaces['hash'] = show(U.subst_values(L.space, {fields: Sym('F')})) if fields else None
-            if pr:
-                r.bad(m, gname, cons, '; '.join(pr) + " -- equal values must hash equally and the hash must cover what __eq__ "
-                      "compares", g.fdef.lineno)
-            else:
-                r.ok(m, gname, cons)
+                    spaces['hash'] = show(U.subst_values(L.space, {fields: Sym('F')})) if fields else None
+                if pr:
+                    r.bad(m, where, cons, '; '.join(pr) + " -- equal values must hash equally and the hash must cover what __eq__ "
+                          "compares", g.fdef.lineno)
+                else:
+                    r.ok(m, where, cons)
     cons = "__eq__ and __hash__ range over the same field tuple"
     if 'eq' in spaces and 'hash' in spaces:
         if spaces['eq'] == spaces['hash']:
@@ -1532,6 +1594,7 @@ def rule_init(repo):
     A = analysis(repo)
     m = A.m
     g = A.gen('_mk_init_fn', KINDS)
+    extra_generator_paths(r, m, g)
     fields = g.fields_sym()
     if fields is None:
         raise AnalysisError("_mk_init_fn does not iterate its field table")
@@ -1613,7 +1676,9 @@ def rule_init(repo):
                     elif dict(rec.closure).get('name') not in (None, key) and 'name' in dict(rec.closure):
                         pr.append("the default builder is bound to another field's name")
                     else:
-                        pr += _default_builder(h, fn, ev, hl, Lb, kind, dict(rec.closure))
+                        for hv in h.variants():
+                            pr += [(f"on the return path{hv.label}: " if hv.label else '') + p_
+                                   for p_ in _default_builder(hv, fn, ev, hl, Lb, kind, dict(rec.closure))]
         if pr:
             r.bad(m, g.name, cons, '; '.join(pr), g.fdef.lineno)
         else:
@@ -1944,10 +2009,25 @@ def rule_concat(repo):
         raise AnalysisError("concat no longer takes *args")
     v, ev = U.eval_generator(m, f, None)
     r.evaluations = ev.steps
-    if not (isinstance(v, CallV) and len(v.args) == 2 and not v.kwargs):
-        r.bad(m, 'concat', 'result', f"returns {show(v)}, not Bits(<total width>, <value>)", f.lineno)
-        r.require_floor(1)
+    # every return path must build a fresh Bits(width, value); the accumulating path is analysed below
+    arms = U.alternatives(v)
+    good = [(c, a) for c, a in arms if isinstance(a, CallV) and len(a.args) == 2 and not a.kwargs
+            and any(isinstance(x, Fold) for x in a.args)]
+    for c, a in arms:
+        if (c, a) in good[:1]:
+            continue
+        if isinstance(a, CallV) and a.fn == 'Bits' and len(a.args) == 2:
+            continue            # another freshly built Bits (judged only for freshness)
+        r.bad(m, 'concat', f"return path [{U.show_conds(c)}]: {show(a)}",
+              f"on the path `{U.show_conds(c)}` concat returns {show(a)}: the result is not a freshly built Bits(<sum of "
+              f"widths>, <value>) on every path -- e.g. to_bits() of a struct with a single leaf would return the field "
+              f"object itself (aliasing: a later @= on the field changes the 'packed copy'), or a value of another type/width",
+              f.lineno)
+    if not good:
+        if not r.findings:
+            r.bad(m, 'concat', 'result', f"returns {show(v)}, not Bits(<total width>, <value>)", f.lineno)
         return r
+    v = good[0][1]
     cons = f"result constructor {v.fn}(width, value)"
     if v.fn not in ('Bits',):
         r.bad(m, 'concat', cons, f"result is built with {v.fn}", f.lineno)
@@ -2183,6 +2263,37 @@ MUTANTS = [
        """    return f'{self_name}.{name} = {name} or _type_{name}'""", 'R-C06-init'),
     _m('to-bits-leaf-emitted-twice', 'return end_bit, [ f"self.{prefix}" ]', 'return end_bit, [ f"self.{prefix}", f"self.{prefix}" ]',
        'R-C06'),
+    # --- extra return paths / run-time replication (second seeding round)
+    _m('init-outer-dimension-replicated', """    if isinstance( x, list ):
+      return f"[{', '.join( [ _recursive_generate_init(x[0]) ] * len(x) )}]\"""", """    if isinstance( x, list ):
+      if isinstance( x[0], list ):
+        return f"[{_recursive_generate_init(x[0])}] * {len(x)}"
+      return f"[{', '.join( [ _recursive_generate_init(x[0]) ] * len(x) )}]\"""", 'R-C06-init'),
+    _m('concat-single-operand-returned-as-is', "    value = nbits = 0\n", "    if len(args) == 1: return args[0]\n\n    value = nbits = 0\n",
+       'R-C06-concat', file=HELPERS),
+    _m('imatmul-single-element-shortcut', '''    if isinstance( type_, list ):
+      ret = []
+      for i in range(len(type_)):
+        ret.extend( _gen_list_imatmul_strs''', '''    if isinstance( type_, list ):
+      if len(type_) == 1: return [ f"self.{prefix} @= other.{prefix}" ]
+      ret = []
+      for i in range(len(type_)):
+        ret.extend( _gen_list_imatmul_strs''', 'R-C06-traversal'),
+    _m('to-bits-one-bit-leaf-forgets-width', "      end_bit = start_bit + type_.nbits\n",
+       "      if type_.nbits == 1: return start_bit, [ f\"self.{prefix}\" ]\n      end_bit = start_bit + type_.nbits\n", 'R-C06-width'),
+    _m('clone-list-replicated-at-run-time', '''    return "[" + ",".join( [ _gen_list_clone_strs( type_[0], f"{prefix}[{i}]" )
+                        for i in range(len(type_)) ] ) + "]"''',
+       '''    return "[" + _gen_list_clone_strs( type_[0], f"{prefix}[0]" ) + "] * " + str(len(type_))''', 'R-C06'),
+    _m('ff-loop-returns-early', "        ils, fls = _gen_list_ilshift_strs( type_[0], f\"{prefix}[{i}]\" )\n",
+       "        if i > 7: return ilshift_strs, flip_strs\n        ils, fls = _gen_list_ilshift_strs( type_[0], f\"{prefix}[{i}]\" )\n",
+       'R-C06-traversal'),
+    _m('to-bits-list-operands-replicated', "        to_strs.extend( tos )\n      return start_bit, to_strs\n\n    elif",
+       "        to_strs.extend( tos )\n      return start_bit, to_strs[:1] * len(type_)\n\n    elif", 'R-C06-traversal'),
+    _m('imatmul-generator-early-none', "  imatmul_strs = [ 'if self.__class__ is not other.__class__:',",
+       "  if not fields: return None\n  imatmul_strs = [ 'if self.__class__ is not other.__class__:',", 'R-C06-traversal'),
+    _m('eq-single-field-shortcut', "  self_tuple  = _mk_tuple_str( 'self', fields )\n  other_tuple",
+       "  if len(fields) == 1: return _create_fn('__eq__', ['self','other'], ['return True'])\n  self_tuple  = _mk_tuple_str( 'self', fields )\n  other_tuple",
+       'R-C06-eqhash'),
     # --- concat
     _m('concat-result-args-swapped', "return Bits( nbits, value )", "return Bits( value, nbits )", 'R-C06-concat', file=HELPERS),
     _m('concat-shift-by-total', "value = (value << xnb) | x.uint()", "value = (value << nbits) | x.uint()", 'R-C06-concat', file=HELPERS),
